@@ -142,6 +142,21 @@ def run(ctx):
     ctx.floor("C19-global-census", 3)
 
     # ------------------------------------------------------------------ C19-own-state
+    # process-wide state: the working directory and the environment variables belong to every instance (and thread) at once
+    PROC = ("std::env::set_current_dir", "std::env::set_var", "std::env::remove_var")
+    n_proc = 0
+    for g_ in fb.all("lib"):
+        if g_.derived or "::tests::" in g_.name:
+            continue
+        for b_, t_ in g_.calls():
+            c_ = callee(t_) or ""
+            if any(c_ == x or c_.endswith(x.split("std::", 1)[1]) for x in PROC):
+                n_proc += 1
+                ctx.report("C19-global-census", "process-state/%s/%s" % (g_.name.split("::{closure")[0], c_.rsplit("::", 1)[-1]),
+                           "%s changes process-wide state (%s): every other instance, on every thread, resolves relative paths / reads the "
+                           "environment through it, so an operation of one instance — in particular a failed one that does not restore it — "
+                           "changes what another instance computes" % (g_.name, c_), where_of(g_, t_))
+    ctx.inst("C19-global-census", "process-wide-state-writers", {"sites": n_proc})
     ctx.rule("C19-own-state", "per-instance state is created per instance")
     from . import privacy
     privacy.require_restricted(ctx, "C19-own-state", fb, "interpreter::interpreter::Interpreter", ["syntax_env", "libraries", "lib_loader"],
